@@ -244,7 +244,7 @@ func c13mustWrite(p *load.Program, f *ssa.Function) (string, string) {
 	}
 	for _, s := range callsTo(p, mw) {
 		arg := s.Instr.(ssa.CallInstruction).Common().Args[2]
-		if layout.SizeOf(strip(arg).Type()) <= 0 {
+		if layout.BinarySize(strip(arg).Type()) <= 0 {
 			return "", "MustWrite called with a value that is not fixed-size at " + p.Pos(s.Instr.Pos())
 		}
 		// destination must be a *bytes.Buffer
